@@ -1,8 +1,107 @@
-import DendroModel.Basic.Tree
-open DendroModel
+import DendroModel.Model.C08
+open DendroModel DendroModel.C08
+
+/-- `<k> n_1 … n_k rest…` -/
+def takeNats (ws : List String) : Option (List Nat × List String) :=
+  match ws with
+  | [] => none
+  | k :: rest =>
+    match k.toNat? with
+    | none => none
+    | some k =>
+      if rest.length < k then none else
+      match (rest.take k).mapM String.toNat? with
+      | some xs => some (xs, rest.drop k)
+      | none => none
+
+def flag (s : String) : Option Bool := if s == "1" then some true else if s == "0" then some false else none
+
+/-- a node predicate: `ids k …` (accepted node ids), `taxa k …` (taxon-less nodes pass, else taxon ∈ K: the wrappers'
+    filter), `nottaxa k …` (taxon-less pass, else taxon ∉ K), `keep k …` (taxon ∈ K, taxon-less fail), `all` -/
+def parseAcc (ws : List String) : Option (Acc × List String) :=
+  match ws with
+  | "all" :: rest => some ((fun _ _ => true), rest)
+  | m :: rest =>
+    match takeNats rest with
+    | none => none
+    | some (xs, rest) =>
+      if m == "ids" then some ((fun i _ => xs.contains i), rest)
+      else if m == "taxa" then some (taxonFilter (fun k => xs.contains k), rest)
+      else if m == "nottaxa" then some (taxonFilter (fun k => !xs.contains k), rest)
+      else if m == "keep" then some (keepTaxa (fun k => xs.contains k), rest)
+      else none
+  | [] => none
+
+def renderRem (r : T × List Nat) : String := r.1.render ++ " | " ++ natList (sortNat r.2)
 
 def handle (ws : List String) : String :=
   match ws with
+  -- restrict <sup> <acc> <tree>: the specification itself
+  | "restrict" :: sup :: rest =>
+    match flag sup, parseAcc rest with
+    | some sup, some (acc, rest) =>
+      match parseTree rest with
+      | some (t, []) => match restrict acc sup t with
+        | some r => r.render
+        | none => "none"
+      | _ => "bad-op"
+    | _, _ => "bad-op"
+  -- prune <sup> <fl> <fi> <k> <P…> <tree>
+  | "prune" :: sup :: fl :: fi :: rest =>
+    match flag sup, flag fl, flag fi, takeNats rest with
+    | some sup, some fl, some fi, some (P, rest) =>
+      match parseTree rest with
+      | some (t, []) => match pruneTaxa (fun k => P.contains k) fl fi sup t with
+        | some r => r.render
+        | none => "err"
+      | _ => "bad-op"
+    | _, _, _, _ => "bad-op"
+  -- retain <sup> <m> <namespace bits…> <k> <K…> <tree>
+  | "retain" :: sup :: rest =>
+    match flag sup, takeNats rest with
+    | some sup, some (ns, rest) =>
+      match takeNats rest with
+      | some (K, rest) =>
+        match parseTree rest with
+        | some (t, []) => match retainTaxa ns (fun k => K.contains k) sup t with
+          | some r => r.render
+          | none => "err"
+        | _ => "bad-op"
+      | none => "bad-op"
+    | _, _ => "bad-op"
+  -- filter <sup> <recursive> <acc> <tree>  ->  tree | removed ids (sorted)
+  | "filter" :: sup :: rc :: rest =>
+    match flag sup, flag rc, parseAcc rest with
+    | some sup, some rc, some (acc, rest) =>
+      match parseTree rest with
+      | some (t, []) => match filterLeaves acc rc sup t with
+        | some r => renderRem r
+        | none => "err"
+      | _ => "bad-op"
+    | _, _, _ => "bad-op"
+  -- plwt <sup> <recursive> <tree>
+  | "plwt" :: sup :: rc :: rest =>
+    match flag sup, flag rc, parseTree rest with
+    | some sup, some rc, some (t, []) => match pruneLeavesWithoutTaxa rc sup t with
+      | some r => renderRem r
+      | none => "err"
+    | _, _, _ => "bad-op"
+  -- subtree <sup> <node id> <tree>
+  | "subtree" :: sup :: i :: rest =>
+    match flag sup, i.toNat?, parseTree rest with
+    | some sup, some i, some (t, []) => if i == t.id then "err" else (pruneSubtree i sup t).render
+    | _, _, _ => "bad-op"
+  -- extract <sup> <fl> <fi> <acc> <tree>
+  | "extract" :: sup :: fl :: fi :: rest =>
+    match flag sup, flag fl, flag fi, parseAcc rest with
+    | some sup, some fl, some fi, some (acc, rest) =>
+      match parseTree rest with
+      | some (t, []) => match extractTree acc fl fi sup t with
+        | .ok r => r.render
+        | .seedDeletion => "SeedNodeDeletion"
+        | .valueError => "ValueError"
+      | _ => "bad-op"
+    | _, _, _, _ => "bad-op"
   | _ => "bad-op"
 
 def main : IO Unit := do driverLoop (← IO.getStdin) handle
